@@ -147,6 +147,14 @@ def gen_cases(r: Run):
         add("shift", [Fraction(rng.randint(-1000 * 64, 1000 * 64), 64)])
         add("cshift", [Fraction(rng.randint(-1000 * 64, 1000 * 64), 64)])
         add("droplast", [])
+        if li % 4 == 0:
+            # the origin is the caller's: far from the peaks (an "unknown" marker, another unit) the offset must still reach
+            # every m/z exactly as given, not as rounded at the origin's magnitude
+            for far_o in (Fraction(2) ** 60, -Fraction(2) ** 75 * 3, Fraction(2) ** 1023):
+                off = Fraction(rng.randint(-1000 * 64, 1000 * 64) | 1, 64)
+                for op_ in ("shift", "cshift"):
+                    cases.append(dict(op=op_, origin=far_o, peaks=l, args=[off], exact=True, kind="grid"))
+                cases.append(dict(op="fused", origin=far_o, peaks=l, args=[Fraction(2), Fraction(0), off], exact=False, kind="grid"))
         cums, acc_ = [], Fraction(0)
         for _, i_ in l:
             acc_ += i_
